@@ -1,28 +1,35 @@
 """C03 - time-window reads return exactly the intersecting events, newest first, limited."""
 S = "aw_datastore.storages.sqlite.SqliteStorage."
 D = "aw_datastore.datastore."
+MS = "aw_datastore.storages.memory.MemoryStorage."
 PROP = dict(
     id="C03",
     level="other",
-    contract_modules=["contracts.models", "contracts.sqlite", "contracts.datastore"],
-    spec_modules=["contracts.sqlite", "contracts.datastore"],
+    contract_modules=["contracts.models", "contracts.sqlite", "contracts.datastore", "contracts.memory"],
+    spec_modules=["contracts.sqlite", "contracts.datastore", "contracts.memory"],
     functions=[dict(fn=S + "get_events", rt_skip=True),
                dict(fn=S + "get_eventcount", rt_skip=True),
                dict(fn="aw_datastore.storages.sqlite._rows_to_events", rt_skip=True),
                dict(fn=D + "Bucket.get", rt_skip=True),
                dict(fn=D + "Bucket.get_eventcount", rt_skip=True),
-               dict(fn=S + "commit", rt_skip=True)],
+               dict(fn=S + "commit", rt_skip=True),
+               dict(fn=MS + "get_events", rt_skip=True),
+               dict(fn=MS + "get_eventcount", rt_skip=True)],
     timeout_s=20,
     extra=[lambda run: run.storage_histories("C03")],
     technique="run-time refinement check of the real back ends against a reference list over random histories (bounded); "
               "with the sqlite methods proved against contracts over the table state (SQL text parsed from the source)",
-    explanation="deductive (sqlite): get_events returns exactly the live events of the bucket with endtime >= start bound and starttime <= end bound, in (starttime, endtime, id) descending order, all of them unless a positive limit is reached, in which case the omitted ones all come after every returned one; limit 0 returns nothing; get_eventcount counts exactly those rows. Bucket.get is proved to hand the storage the caller's window widened to whole milliseconds (start rounded down, end rounded down plus one millisecond: lemma F1 for int(microsecond / 1000)), so that nothing intersecting the caller's window is missed, and to return exactly the storage's answer for that window. " 
+    explanation="deductive (sqlite): get_events returns exactly the live events of the bucket with endtime >= start bound and starttime <= end bound, in (starttime, endtime, id) descending order, all of them unless a positive limit is reached, in which case the omitted ones all come after every returned one; limit 0 returns nothing; get_eventcount counts exactly those rows. Bucket.get is proved to hand the storage the caller's window widened to whole milliseconds (start rounded down, end rounded down plus one millisecond: lemma F1 for int(microsecond / 1000)), so that nothing intersecting the caller's window is missed, and to return exactly the storage's answer for that window. deductive (memory): get_events returns fresh copies of stored events that intersect the window, newest first, at most `limit` of them, none for limit 0 (that none is missing is only bounded for this back end); get_eventcount is exact. " 
                 "bounded: random bucket contents (overlapping, nested, adjacent, zero-length events) and random windows (open-ended, zero-width, sub-millisecond) and limits on the three back ends: every event strictly inside (beyond 2 ms of an edge) must be returned and none strictly outside, ordered by timestamp descending, a positive limit keeps the newest, the count agrees within the same tolerance, peewee's results are the stored events cut to the window.",
 )
 
 F = "/repo/aw_datastore/storages/sqlite.py"
 FD = "/repo/aw_datastore/datastore.py"
+FM = "/repo/aw_datastore/storages/memory.py"
 MUTANTS = [
+    (FM, '        events = sorted(events, key=lambda k: k["timestamp"])[::-1]', '        events = sorted(events, key=lambda k: k["timestamp"])', True),   # oldest first
+    (FM, '            events = [e for e in events if starttime <= (e.timestamp + e.duration)]', '            events = [e for e in events if starttime <= e.timestamp]', True),   # window start tested against the start
+    (FM, '                if (not starttime or starttime <= (e.timestamp + e.duration))', '                if (not starttime or starttime <= e.timestamp)', True),   # count ignores straddling events (the defect fixed in 36426f8)
     (FD, '            milliseconds = 1 + int(endtime.microsecond / 1000)', '            milliseconds = int(endtime.microsecond / 1000)', True),   # window end rounded down: events in the last millisecond are missed
     (FD, '                microsecond=1000 * int(starttime.microsecond / 1000)', '                microsecond=1000 * (1 + int(starttime.microsecond / 1000)) % 1000000', True),   # window start rounded up
     (FD, '            second_offset = int(milliseconds / 1000)  # usually 0, rarely 1', '            second_offset = 0', True),   # overflow into the next second lost
